@@ -17,7 +17,7 @@ ASSUMPTIONS = [
 EXPLANATION = ("theorems: refinement of ParameterTable to an insertion-ordered map for all op sequences; "
                "RowCollector row preservation and sort = row permutation; grid bijection; Cartesian product laws")
 
-KEYS = ["a", "b", "c", "d", "k1", "x.y", "Z"]
+KEYS = ["aa", "bb", "cc", "dd", "k1", "x.y", "Zz"]
 SETTINGS = ["p", "q"]
 
 
@@ -54,6 +54,10 @@ def impl_table(ops):
     def rec(v):
         return [int(x) for x in v.data().values()]
     for op in ops:
+        # keys are rebuilt for every operation: equal to, but never the same object as, the key
+        # that was stored (an implementation comparing keys by identity must not get away with it)
+        if len(op) > 1 and isinstance(op[1], str):
+            op = [op[0], "".join(list(op[1]))] + list(op[2:])
         try:
             if op[0] == "append":
                 if op[3] == "append":
@@ -88,9 +92,9 @@ def model_ops(ops):
 
 def table_stream(ctx, count, maxlen):
     seqs = [
-        [["append", "a", [1, 2], "append"], ["append", "b", [3, 4], "setitem"], ["append", "a", [5, 6], "setitem"],
-         ["keys"], ["items"], ["del", "a"], ["getpos", 0], ["getpos", -1], ["del", "a"], ["len"], ["keys"]],
-        [["del", "a"], ["getpos", 0], ["getkey", "a", "attr"], ["len"]],
+        [["append", "aa", [1, 2], "append"], ["append", "bb", [3, 4], "setitem"], ["append", "aa", [5, 6], "setitem"],
+         ["keys"], ["items"], ["del", "aa"], ["getpos", 0], ["getpos", -1], ["del", "aa"], ["len"], ["keys"]],
+        [["del", "aa"], ["getpos", 0], ["getkey", "aa", "attr"], ["len"]],
     ]
     for _ in range(count):
         seqs.append(gen_table_ops(ctx.rng, ctx.rng.randint(1, maxlen)))
